@@ -192,7 +192,7 @@ fn hay_sels() -> BoxedStrategy<Vec<u16>> {
 }
 
 /// limit classes: (haystack length, needle length)
-pub const LIMIT_SIZES: &[(u32, u32)] = &[
+pub const LIMIT_SIZES_FIXED: &[(u32, u32)] = &[
     (1024, 100),
     (1025, 100),
     (1024, 101),
@@ -217,6 +217,47 @@ pub const LIMIT_SIZES: &[(u32, u32)] = &[
     (120_000, 2049),
 ];
 
+/// size in bytes of the scratch layout the matrix needs for a window of `h` haystack characters of
+/// `char_bytes` bytes each and a needle of `n` characters (own arithmetic: haystack copy, one bonus
+/// byte per char, one u16 row offset per needle char, 8-byte score cells for h+1-n columns, one
+/// matrix byte per cell), fields aligned to 1/1/2/8/1
+pub fn scratch_bytes(h: usize, n: usize, char_bytes: usize) -> usize {
+    let up = |x: usize, a: usize| (x + a - 1) / a * a;
+    let bonus = h * char_bytes;
+    let rows = up(bonus + h, 2);
+    let score = up(rows + 2 * n, 8);
+    let matrix = score + 8 * (h + 1 - n);
+    matrix + (h + 1 - n) * n
+}
+/// size of the matcher's scratch slab: 2048 chars + 2048 bonus bytes + 2048 u16 + 2048 8-byte cells + 100 KiB
+pub const SLAB_BYTES: usize = 2048 * 4 + 2048 + 2048 * 2 + 2048 * 8 + 100 * 1024;
+/// largest window that still fits the slab for a needle of n chars
+pub fn slab_limit(n: usize, char_bytes: usize) -> usize {
+    let mut h = n;
+    while scratch_bytes(h + 1, n, char_bytes) <= SLAB_BYTES {
+        h += 1;
+    }
+    h
+}
+
+/// fixed limit classes plus the slab-size boundaries (which bind before the cell-count limit for
+/// short needles, differently for the two haystack representations)
+pub fn limit_sizes() -> &'static Vec<(u32, u32)> {
+    static L: std::sync::OnceLock<Vec<(u32, u32)>> = std::sync::OnceLock::new();
+    L.get_or_init(|| {
+        let mut v = LIMIT_SIZES_FIXED.to_vec();
+        for n in [2usize, 3, 5, 10, 50] {
+            for cb in [1usize, 4] {
+                let h = slab_limit(n, cb) as i64;
+                for d in [-1i64, 0, 1, 2, 40, 900] {
+                    v.push(((h + d) as u32, n as u32));
+                }
+            }
+        }
+        v
+    })
+}
+
 fn regular_case() -> BoxedStrategy<MCase> {
     (gen::any_palette(), hay_sels(), gen::any_cfg(), proptest::collection::vec(any::<u32>(), 0..=8), 0u8..3)
         .prop_flat_map(|(pal, hs, cfg, prior, cap_mode)| {
@@ -236,7 +277,7 @@ fn limit_case() -> BoxedStrategy<MCase> {
         gen::any_palette(),
         proptest::collection::vec(any::<u16>(), 1..=5),
         gen::any_cfg(),
-        0usize..LIMIT_SIZES.len(),
+        0usize..limit_sizes().len(),
         // needle shape: 0 same motif (positive), 1 motif + mutated tail, 2 first motif char only
         0u8..3,
         any::<u16>(),
@@ -244,7 +285,7 @@ fn limit_case() -> BoxedStrategy<MCase> {
     )
         .prop_map(|(pal, ms, cfg, size, shape, mutsel, prior)| {
             let motif = text_from(&pal, &ms);
-            let (hl, nl) = LIMIT_SIZES[size];
+            let (hl, nl) = limit_sizes()[size];
             let nmotif: Vec<char> = motif.iter().map(|&c| norm_fix(vcommon::oracle::norm(c, cfg), cfg)).collect();
             let needle = match shape {
                 0 => Text { motif: nmotif, tile_to: nl, tail: vec![] },
